@@ -3,8 +3,8 @@ with socket-less real Connection objects (real set_keyspace_async / send_msg / d
 import itertools, threading
 from vf import pool_harness as H
 
-OUTCOMES = ['ok', 'invalid', 'connerr', 'noconn', 'shut', 'same']
-PENDING = ('ok', 'invalid', 'connerr')
+OUTCOMES = ['ok', 'invalid', 'connerr', 'noconn', 'shut', 'same', 'emptyv2', 'deaderr', 'lost']
+PENDING = ('ok', 'invalid', 'connerr', 'deaderr')
 OLD, NEW = 'ks_old', 'ks_new'
 
 
@@ -81,77 +81,194 @@ def canon_errors(arg):
 
 
 class KsRun(object):
+    """rounds of `Session._set_keyspace_for_all_pools(NEW)` over real pools; the harness plays the servers (srv = keyspace
+    really selected on the server side of each connection)"""
+
     def __init__(self, outcomes):
         import cassandra.pool as P
         import cassandra.cluster as C
         from cassandra.policies import HostDistance
-        self.C, self.outcomes = C, list(outcomes)
-        self.cluster = KsCluster(H.make_conn_class(Stub()))
+        from cassandra.protocol import ResultMessage
+        run = self
+        Base = H.make_conn_class(Stub())
+
+        class Conn(Base):
+            def wait_for_responses(self, *msgs, **kw):        # blocking USE of a fresh connection: the server accepts it
+                if run.during_use is not None:                # ... and a keyspace switch lands during that round trip
+                    f, run.during_use = run.during_use, None
+                    f()
+                for m in msgs:
+                    q = getattr(m, 'query', '')
+                    if q.startswith('USE '):
+                        run.srv[self] = q[5:-1].replace('""', '"')
+                return [ResultMessage(kind=3) for _ in msgs]
+        self.C, self.P, self.outcomes = C, P, list(outcomes)
+        self.cluster = KsCluster(Conn)
+        self.cluster.get_core_connections_per_host = lambda d: 0
+        self.cluster.get_max_connections_per_host = lambda d: 2
+        self.cluster.get_max_requests_per_connection = lambda d: 100
+        self.cluster.get_min_requests_per_connection = lambda d: 1
         self.session = KsSession(self.cluster)
+        self.session.keyspace = OLD
+        self.srv = {}
+        self.during_use = None
         self.pools, self.orig = [], []
         for i, o in enumerate(outcomes):
             host = KsHost(i)
-            pool = P.HostConnection(host, HostDistance.IGNORED if o == 'noconn' else HostDistance.LOCAL, self.session)
+            if o == 'emptyv2':
+                pool = P.HostConnectionPool(host, HostDistance.LOCAL, self.session)
+                conn = None
+            else:
+                pool = P.HostConnection(host, HostDistance.IGNORED if o == 'noconn' else HostDistance.LOCAL, self.session)
+                conn = pool._connection
             pool._keyspace = OLD
-            conn = pool._connection
             if conn is not None:
                 conn.keyspace = NEW if o == 'same' else OLD
+                self.srv[conn] = conn.keyspace
             if o == 'shut':
                 pool.shutdown()
+            if o == 'lost':        # the connection died before the switch: borrowed stream errored, returned -> _replace queued
+                from cassandra.connection import ConnectionException
+                c, rid = pool.borrow_connection(1)
+                conn.defunct(ConnectionException('scripted failure'))
+                pool.return_connection(conn)
             self.session._pools[host] = pool
             self.pools.append(pool)
             self.orig.append(conn)
-        self.session.keyspace = OLD
         self.calls = []
         self.obs = []
+        self.failed = []
+
+    def current(self, i):
+        p = self.pools[i]
+        if isinstance(p, self.P.HostConnectionPool):
+            return p._connections[0] if p._connections else None
+        return p._connection
 
     def snap(self, tag):
         ks = lambda v: {None: 0, OLD: 1, NEW: 2}.get(v, 3)
         o = [tag, ks(self.session.keyspace), len(self.calls)]
         for c in self.calls:
             o += [50] + [x for pi, errs in c for x in [pi] + errs + [51]]
-        for p, c in zip(self.pools, self.orig):
-            o += [60, ks(p._keyspace), ks(c.keyspace) if c is not None else -1, c.in_flight if c is not None else -1]
+        for i, p in enumerate(self.pools):
+            c = self.current(i) or self.orig[i]
+            o += [60, ks(p._keyspace), ks(c.keyspace) if c is not None else -1, c.in_flight if c is not None else -1,
+                  ks(self.srv.get(c)) if c is not None else -1]
         self.obs.append(o)
 
-    def start(self):
+    def start(self, outcomes=None):
+        if outcomes is not None:          # another switch to the same keyspace (e.g. the application retries the USE)
+            self.outcomes = list(outcomes)
+            self.calls = []
+            self.failed = []
         self.C.Session._set_keyspace_for_all_pools(self.session, NEW, lambda errors: self.calls.append(canon_errors(errors)))
         self.snap(1)
 
+    def pending(self):
+        return [i for i in range(len(self.pools)) if self.current(i) is not None and self.current(i)._requests]
+
     def complete(self, i):
         from cassandra.protocol import ResultMessage, InvalidRequestException, ServerError
-        conn = self.orig[i]
+        conn = self.current(i)
         rid, (cb, _, _) = conn._requests.popitem()
         with conn.lock:
             conn.request_ids.append(rid)
         o = self.outcomes[i]
-        if o == 'ok':
+        if o == 'deaderr':       # the connection dies (heartbeat, socket error): error_all_requests answers the USE with ConnectionShutdown
+            from cassandra.connection import ConnectionException
+            conn._requests[rid] = (cb, None, None)
+            self.failed.append(i)
+            conn.defunct(ConnectionException('scripted failure'))
+        elif o == 'ok':
+            self.srv[conn] = NEW
             cb(ResultMessage(kind=3))
         elif o == 'invalid':
+            self.failed.append(i)
             cb(InvalidRequestException(0x2200, 'keyspace does not exist', None))
         else:
+            self.failed.append(i)
             cb(ServerError(0, 'boom', None))
         self.snap(2)
+
+    def can_reconnect(self, i):
+        p = self.pools[i]
+        if p.is_shutdown or self.current(i) is not None:
+            return False
+        if isinstance(p, self.P.HostConnectionPool):
+            return True
+        return any(getattr(fn, '__self__', None) is p for fn, a in self.session.queue)
+
+    def reconnect(self, i, during=None):
+        p = self.pools[i]
+        self.during_use = during
+        if isinstance(p, self.P.HostConnectionPool):
+            p._add_conn_if_under_max()
+        else:
+            k = [j for j, (fn, a) in enumerate(self.session.queue) if getattr(fn, '__self__', None) is p][0]
+            fn, a = self.session.queue.pop(k)
+            fn(*a)
+        self.during_use = None
+        self.orig[i] = self.current(i) or self.orig[i]
+        self.snap(3)
 
 
 def pending_of(outcomes):
     return [i for i, o in enumerate(outcomes) if o in PENDING]
 
 
-def run_case(outcomes, order):
+def run_race(outcomes):
+    """one switch that lands while the first pool that lost its connection is re-connecting (during the blocking USE of its fresh
+    connection); then every pending pool answers in index order"""
     r = KsRun(outcomes)
-    r.start()
-    for i in order:
+    r.ops2 = None
+    ops = []
+    racer = [i for i in range(len(r.pools)) if r.can_reconnect(i) and not isinstance(r.pools[i], r.P.HostConnectionPool)]
+    if racer:
+        r.reconnect(racer[0], during=r.start)
+        ops += ['KStart', 'KReconnect %d%%nat' % racer[0]]
+    else:
+        r.start()
+        ops.append('KStart')
+    for i in r.pending():
         r.complete(i)
+        ops.append('KComplete %d%%nat' % i)
+    r.ops1, r.obs1, r.calls1, r.failed1 = ops, list(r.obs), list(r.calls), list(r.failed)
     return r
 
 
-def oracle(r, order):
-    """the statement of C20 evaluated on the implementation's run; returns [(key, what, theorem)]"""
+def run_case(outcomes, order, reconnect=False, round2=None, perm2=None):
+    """round 1: start + completions in `order`; then (optionally) every pool that can reconnect does; then (optionally) a second
+    switch to the same keyspace with outcomes `round2`, its pending pools completing in the order given by perm2 (a key function)"""
+    r = KsRun(outcomes)
+    r.start()
+    ops = ['KStart']
+    for i in order:
+        r.complete(i)
+        ops.append('KComplete %d%%nat' % i)
+    if reconnect:
+        for i in range(len(r.pools)):
+            if r.can_reconnect(i):
+                r.reconnect(i)
+                ops.append('KReconnect %d%%nat' % i)
+    r.ops1, r.obs1, r.calls1, r.failed1 = ops, list(r.obs), list(r.calls), list(r.failed)
+    r.ops2 = None
+    if round2 is not None:
+        r.start(round2)
+        ops2 = ['KStart']
+        pend = r.pending()
+        if perm2:
+            pend = sorted(pend, key=perm2)
+        for i in pend:
+            r.complete(i)
+            ops2.append('KComplete %d%%nat' % i)
+        r.ops2 = ops2
+    return r
+
+
+def oracle(r, order, complete1=True):
+    """the statement of C20 evaluated on the implementation's run (last switch); returns [(key, what, theorem)]"""
     out = []
-    pend = pending_of(r.outcomes)
-    all_done = sorted(order) == pend
-    failed = [i for i in order if r.outcomes[i] in ('invalid', 'connerr')]
+    all_done = not r.pending() and (r.ops2 is not None or complete1)
     if all_done and len(r.calls) != 1:
         missing = [o for o in r.outcomes if o in ('noconn', 'shut')]
         key = 'HostConnection._set_keyspace_for_all_conns.no-callback' if (missing and not r.calls) else 'Session._set_keyspace_for_all_pools.callback-count'
@@ -159,28 +276,42 @@ def oracle(r, order):
                     'C20_always_completes'))
     if len(r.calls) > 1:
         out.append(('Session._set_keyspace_for_all_pools.callback-count', 'completion callback ran %d times' % len(r.calls), 'C20_always_completes'))
-    if r.calls:
-        if failed and not r.calls[0]:
+    for calls, failed in ((r.calls1, r.failed1), (r.calls, r.failed)):
+        if calls and failed and not calls[0]:
             out.append(('Session._set_keyspace_for_all_pools.error-lost',
                         'USE failed on pool(s) %s but the completion callback got no error (outcomes %s, order %s)' % (failed, r.outcomes, order),
                         'C20_any_error_reported'))
-        if not r.calls[0]:
-            for i, (p, c) in enumerate(zip(r.pools, r.orig)):
-                if p.is_shutdown:
-                    continue
-                if p._connection is not None and p._connection.keyspace != NEW:
-                    out.append(('Session._set_keyspace_for_all_pools.success-but-not-applied',
-                                'switch reported success but the connection of pool %d has keyspace %r' % (i, p._connection.keyspace), 'C20_success_means_all'))
-                if p._connection is None and p._keyspace != NEW:
-                    out.append(('HostConnection._set_keyspace_for_all_conns.pool-keyspace-stale',
-                                'switch reported success but pool %d (no connection now) would connect its next connection with %r' % (i, p._keyspace),
-                                'C20_success_means_all'))
+    if r.calls and not r.calls[0]:
+        for i, p in enumerate(r.pools):
+            if p.is_shutdown:
+                continue
+            c = r.current(i)
+            if c is not None and r.srv.get(c) != NEW:
+                legacy = isinstance(p, r.P.HostConnectionPool)
+                key = ('HostConnectionPool.connection-on-stale-keyspace' if legacy else 'Session._set_keyspace_for_all_pools.success-but-not-applied')
+                out.append((key, 'the switch reported success but the connection pool %d hands out has %r selected on the server '
+                            '(the driver believes %r)' % (i, r.srv.get(c), c.keyspace), 'C20_success_means_all'))
+            if c is None and not isinstance(p, r.P.HostConnectionPool) and p._keyspace != NEW:
+                out.append(('HostConnection._set_keyspace_for_all_conns.pool-keyspace-stale',
+                            'switch reported success but pool %d (no connection now) would connect its next connection with %r' % (i, p._keyspace),
+                            'C20_success_means_all'))
     return out
 
 
+OC = {'ok': 'POk', 'invalid': 'PInvalid', 'connerr': 'PConnErr', 'noconn': 'PNoConn', 'shut': 'PShut', 'same': 'PSame', 'emptyv2': 'PEmptyV2',
+      'deaderr': 'PDeadErr', 'lost': 'PLost'}
+
+
+def coq_run(r, outcomes, round2):
+    """Gallina term: the model's trace for what was executed"""
+    o1 = '[%s]' % '; '.join(OC[o] for o in outcomes)
+    if round2 is None:
+        return 'ktrace (kinit %s) [%s]' % (o1, '; '.join(r.ops1))
+    return 'ktrace2 %s [%s] [%s] [%s]' % (o1, '; '.join(r.ops1), '; '.join(OC[o] for o in round2), '; '.join(r.ops2))
+
+
 def coq_case(outcomes, order):
-    oc = {'ok': 'POk', 'invalid': 'PInvalid', 'connerr': 'PConnErr', 'noconn': 'PNoConn', 'shut': 'PShut', 'same': 'PSame'}
-    return '[%s]' % '; '.join(oc[o] for o in outcomes), '[%s]' % '; '.join('%d%%nat' % i for i in order)
+    return '[%s]' % '; '.join(OC[o] for o in outcomes), '[%s]' % '; '.join('%d%%nat' % i for i in order)
 
 
 # ------------------------------------------------------------------------------------------------------------------
@@ -199,6 +330,38 @@ class CreateSession(KsSession):
     _profile_manager = _PM()
 
 
+class HandoffEvent(object):
+    """cassandra.cluster.Event during pool creation.  The executor thread waits on it while the event-loop thread delivers
+    the catch-up response; the waiter is woken at the very moment set() is called and runs to its decision before the
+    setter continues (the schedule that exposes anything the setter does AFTER set())."""
+    run = None
+
+    def __init__(self):
+        self.flag = False
+
+    def is_set(self):
+        return self.flag
+
+    def set(self):
+        self.flag = True
+        r = HandoffEvent.run
+        if r is not None and threading.current_thread() is r.helper:
+            r.set_reached.set()
+            r.resume.wait(10)
+
+    def wait(self, timeout=None):
+        r = HandoffEvent.run
+        if self.flag or r is None:
+            return self.flag
+        if r.pending_fail is not None:
+            conn, r.pending_fail = r.pending_fail, None
+            r.helper = threading.Thread(target=r.deliver_fail, args=(conn,))
+            r.helper.daemon = True
+            r.helper.start()
+            r.set_reached.wait(10)
+        return self.flag
+
+
 class CreateRun(object):
     """ks0: session keyspace before; n0 registered pools; s0 / s1: switches landing during connection_factory (before the new
     pool reads session.keyspace) / during the new connection's blocking USE (after the read, before registration);
@@ -215,11 +378,20 @@ class CreateRun(object):
         class Conn(Base):
             def wait_for_responses(self, *msgs, **kw):
                 run.at_blocking_use(self)
+                for m in msgs:
+                    if getattr(m, 'query', '').startswith('USE '):
+                        run.srv[self] = m.query[5:-1]
                 return [ResultMessage(kind=3) for _ in msgs]
+
+            def send_msg(self, msg, request_id, cb, *a, **kw):
+                if getattr(msg, 'query', '').startswith('USE '):
+                    run.last_use[self] = msg.query[5:-1]
+                return Base.send_msg(self, msg, request_id, cb, *a, **kw)
 
             def push(self, data):
                 run.at_push(self)
         self.C, self.P, self.RM = C, P, ResultMessage
+        self.last_use = {}
         self.cluster = KsCluster(Conn)
         self.cluster.connect_timeout = 0.05
         real_factory = self.cluster.connection_factory
@@ -231,7 +403,11 @@ class CreateRun(object):
         self.session = CreateSession(self.cluster)
         self.session.keyspace = KSN[ks0]
         self.phase = 'setup'
-        self.s0, self.s1, self.rounds = list(s0), list(s1), [list(r) for r in rounds]
+        self.s0, self.s1 = list(s0), list(s1)
+        self.rounds = [(bool(f), list(r)) for f, r in rounds]
+        self.pending_fail, self.helper = None, None
+        self.set_reached, self.resume = threading.Event(), threading.Event()
+        self.srv = {}
         self.round_trips = 0
         self.switch_results = []
         self.new_conn = None
@@ -246,6 +422,7 @@ class CreateRun(object):
         self.C.Session._set_keyspace_for_all_pools(self.session, KSN[k], lambda errors: self.switch_results.append(canon_errors(errors)))
 
     def deliver_ok(self, conn):
+        self.srv[conn] = self.last_use.get(conn)
         rid, (cb, _, _) = conn._requests.popitem()
         with conn.lock:
             conn.request_ids.append(rid)
@@ -269,24 +446,46 @@ class CreateRun(object):
         if self.phase == 'create' and not registered:
             k = self.round_trips
             self.round_trips += 1
+            fail = False
             if k < len(self.rounds):
-                for ks in self.rounds[k]:
+                fail = self.rounds[k][0]
+                for ks in self.rounds[k][1]:
                     self.switch(ks)
+            if fail:
+                self.pending_fail = conn       # answered (InvalidRequest) by the event-loop thread while the executor waits
+                return
         self.deliver_ok(conn)
+
+    def deliver_fail(self, conn):
+        from cassandra.protocol import InvalidRequestException
+        rid, (cb, _, _) = conn._requests.popitem()
+        with conn.lock:
+            conn.request_ids.append(rid)
+        cb(InvalidRequestException(0x2200, 'keyspace does not exist', None))
 
     def create(self):
         self.C.Session.add_or_renew_pool(self.session, self.new_host, False)
         fn, args = self.session.queue.pop(0)
-        self.result = fn(*args)
+        real_event = self.C.Event
+        self.C.Event = HandoffEvent
+        HandoffEvent.run = self
+        try:
+            self.result = fn(*args)
+        finally:
+            self.C.Event = real_event
+            HandoffEvent.run = None
+            self.resume.set()
+            if self.helper is not None:
+                self.helper.join(10)
         self.phase = 'done'
         return self
 
     def observe(self):
-        """[registered?, session keyspace, new pool._keyspace, keyspace of its connection, catch-up round trips]"""
+        """[registered?, session keyspace, keyspace selected (server side) on the registered pool's connection, catch-up round trips]"""
         p = self.session._pools.get(self.new_host)
         if p is None:
-            return [0, KSI.get(self.session.keyspace, 9), -1, -1, self.round_trips]
-        return [1, KSI.get(self.session.keyspace, 9), KSI.get(p._keyspace, 9), KSI.get(p._connection.keyspace, 9) if p._connection else -1, self.round_trips]
+            return [0, KSI.get(self.session.keyspace, 9), -1, self.round_trips]
+        return [1, KSI.get(self.session.keyspace, 9), KSI.get(self.srv.get(p._connection), 9) if p._connection else -1, self.round_trips]
 
     def oracle(self):
         out = []
@@ -295,10 +494,10 @@ class CreateRun(object):
             for host, p in self.session._pools.items():
                 if p.is_shutdown or p._connection is None:
                     continue
-                if all(not r for r in self.switch_results) and sk and (p._connection.keyspace != sk or p._keyspace != sk):
+                if all(not r for r in self.switch_results) and sk and (self.srv.get(p._connection, p._connection.keyspace) != sk or p._keyspace != sk):
                     key = 'Session.add_or_renew_pool.registered-on-stale-keyspace' if host is self.new_host else 'Session._set_keyspace_for_all_pools.success-but-not-applied'
                     out.append((key, 'every keyspace switch reported success and the session keyspace is %r, but the pool of %r is registered with '
-                                '_keyspace %r and its connection has %r selected' % (sk, host, p._keyspace, p._connection.keyspace), 'C20_new_pool_matches_session'))
+                                '_keyspace %r and its connection has %r selected on the server' % (sk, host, p._keyspace, self.srv.get(p._connection, p._connection.keyspace)), 'C20_new_pool_matches_session'))
         return out
 
     def switch_results_ok(self):
@@ -307,4 +506,4 @@ class CreateRun(object):
 
 def create_coq(ks0, s0, s1, rounds):
     zl = lambda l: '[%s]' % '; '.join(str(x) for x in l)
-    return 'create_obs %d %s %s [%s]' % (ks0, zl(s0), zl(s1), '; '.join(zl(r) for r in rounds))
+    return 'create_obs %d %s %s [%s]' % (ks0, zl(s0), zl(s1), '; '.join('(%s, %s)' % ('true' if f else 'false', zl(r)) for f, r in rounds))
